@@ -123,6 +123,22 @@ def tab_track_via(t, track, maxwidth, how):
         tr.instrument = Instrument(); tr.instrument.tuning = tun
     return lines(tablature.from_Track(tr, maxwidth))
 
+def tab_bar_pinned(t, entries, width):
+    """a bar whose notes come from the tuning itself (get_Note(string, fret)): they carry string / fret attributes"""
+    from mingus.extra import tablature
+    from mingus.containers import Bar, NoteContainer
+    tun = mk_tuning(t)
+    b = Bar("C", (4, 4))
+    for v, pins in entries:
+        if pins is None:
+            b.place_rest(v)
+        else:
+            nc = NoteContainer()
+            for s_, f_ in pins:
+                nc.add_note(tun.get_Note(s_, f_))
+            b.place_notes(nc, v)
+    return lines(tablature.from_Bar(b, width, tun))
+
 def tab_composition(comp, width):
     from mingus.extra import tablature
     from mingus.containers import Composition
@@ -146,7 +162,7 @@ def tab_composition_safe(comp, width):
         return err_of(e)
 
 IMPL = {"tun.frets": tun_frets, "tun.note": tun_note, "tun.fingering": tun_fingering, "tun.chord": tun_chord,
-        "tun.get": tun_get, "tun.gets": tun_gets, "tab.note": tab_note, "tab.nc": tab_nc, "tab.nc_form": tab_nc_form, "tab.track_via": tab_track_via, "tab.bar": tab_bar,
+        "tun.get": tun_get, "tun.gets": tun_gets, "tab.note": tab_note, "tab.nc": tab_nc, "tab.bar_pinned": tab_bar_pinned, "tab.nc_form": tab_nc_form, "tab.track_via": tab_track_via, "tab.bar": tab_bar,
         "tab.track": tab_track, "tab.composition": tab_composition}
 
 def has_model(c):
@@ -214,6 +230,10 @@ def decode_tab(string_lines, opens):
                 ps.append(opens[string] + int(seg))
         entries.append(sorted(ps))
     return entries, None
+
+def pn_(p):
+    o, pc = divmod(p, 12)
+    return [["C", "C#", "D", "Eb", "E", "F", "F#", "G", "Ab", "A", "Bb", "B"][pc], o, 1, 64]
 
 def spec_fingers(f):
     """fingers a fingering needs, by the rule the library documents: going from the HIGHEST string down, the index finger lies
@@ -341,6 +361,11 @@ def cases(tier, rng):
                 nn = [["C", "C#", "D", "Eb", "E", "F", "F#", "G", "Ab", "A", "Bb", "B"][pc], o, 1, 64]
                 out.append(Case("tab.note", [t, nn, 60], tag="tab:note-every-tuning"))
                 out.append(Case("tab.bar", [t, ["C", 4, 4, [[4, [nn]], [4, None], [2, [nn]]]], 60], tag="tab:bar-every-tuning"))
+    # notes taken from the tuning (they remember string and fret), two of them from the SAME string in one entry
+    for tn in (STD, ["E-1", "A-1", "D-2", "G-2"]):
+        for ents in ([[4, [[2, 0], [2, 2]]], [4, None], [2, [[1, 3]]]], [[2, [[0, 0], [0, 5], [3, 2]]], [2, [[1, 0], [2, 0]]]],
+                     [[4, [[3, 1]]], [4, [[3, 1], [3, 3]]], [4, [[0, 3], [1, 2], [2, 0], [3, 0]]], [4, None]]):
+            out.append(Case("tab.bar_pinned", [tn, ents, 80], tag="tab:bar-pinned", model=False))
     # a track drawn on the tuning IT holds (Track.tuning, set_tuning) or that only its instrument holds: no tuning argument
     def pn(p):
         o, pc = divmod(p, 12)
@@ -522,6 +547,16 @@ def oracle(c, obs):
         if isinstance(obs, Err):
             return "a playable %s raised %s" % ("note" if fn == "tab.note" else "container", obs.name)
         return check_tab(obs, opens, [sorted(npitch(x) for x in ns)])
+    elif fn == "tab.bar_pinned":
+        t, ents, w = a
+        opens = open_pitches(t)
+        want = [sorted(set(opens[s_] + f_ for s_, f_ in pins)) for v, pins in ents if pins]
+        sets = [[pn_(p) for p in ps] for ps in want]
+        if any(not fingerable(t, ns) for ns in sets):
+            return None if (isinstance(obs, Err) and obs.name == "FingerError") else "an entry has no fingering but the result is %s" % str(obs)[:60]
+        if isinstance(obs, Err):
+            return "a playable bar of notes taken from the tuning raised %s" % obs.name
+        return check_tab(obs, opens, want, header_lines=1)
     elif fn == "tab.bar":
         t, bar, w = a
         opens = open_pitches(t or STD)
